@@ -12,6 +12,26 @@ import universe as U
 from w_checker import classify, make_module
 
 
+class Ret:
+    """what a generated body returns (`return RET[0]`).  With a plan, the body first RE-ENTERS the same
+    decorated function (the nested calls of the plan, their exceptions swallowed) and then returns."""
+    def __init__(self):
+        self.value, self.plan, self.runner = None, None, None
+
+    def __setitem__(self, i, v):
+        self.value, self.plan = v, None
+
+    def __getitem__(self, i):
+        plan, self.plan = self.plan, None
+        if plan is None:
+            return self.value
+        for sub in plan['nested']:
+            self.plan = sub
+            sub['out'], sub['exc'] = self.runner(sub)
+            self.plan = None
+        return plan['ret']
+
+
 def sig_src(name, sg, tag, env, method, deco=''):
     ps = []
     for j, a in enumerate(sg['params']):
@@ -26,7 +46,7 @@ def sig_src(name, sg, tag, env, method, deco=''):
 
 def build(world, ctx):
     env = dict(U.real_ctx(ctx))
-    env['RET'] = [None]
+    env['RET'] = Ret()
     src = ['from typing import Generic', 'from pedantic import pedantic, pedantic_class', '']
     for k, cd in enumerate(world['classes']):
         kind = cd['kind']
@@ -125,8 +145,33 @@ def run_case(c):
             fn = getattr(slots[slot][1], f'm{m}')
             code, _, msg = attempt(lambda: mod.call(fn, {f'p{j}': v for j, v in enumerate(real)}))
             out.append(code); excs.append(msg)
+        elif s[0] == 'fun' and len(s) > 4 and s[4]:
+            # re-entrancy: the body of f calls f again (depth-first plan); flat result: inner calls first, the outer call last
+            f = s[1]
+            fn = getattr(mod, f'f{f}')
+            flat = []
+
+            def mk(node):
+                args, ret, nested = node[0], node[1], (node[2] if len(node) > 2 else [])
+                real, rv = vals(args)
+                (rreal,), (rret,) = vals([ret])
+                plan = {'kw': {f'p{j}': v for j, v in enumerate(real)}, 'ret': rreal, 'nested': [mk(n) for n in nested],
+                        'out': 8, 'exc': None}
+                flat.append((plan, ['fun', f, rv, rret]))
+                return plan
+
+            def runner(sub):
+                code, _, msg = attempt(lambda: mod.call(fn, sub['kw']))
+                return code, msg
+            top = mk([s[2], s[3], s[4]])
+            mod.RET.runner = runner
+            mod.RET.plan = top
+            top['out'], top['exc'] = runner(top)
+            mod.RET.plan = None
+            for plan, rstep in flat:
+                r_steps.append(rstep); out.append(plan['out']); excs.append(plan['exc'])
         elif s[0] == 'fun':
-            _, f, args, ret = s
+            _, f, args, ret = s[:4]
             real, rv = vals(args)
             (rreal,), (rret,) = vals([ret])
             r_steps.append(['fun', f, rv, rret])
